@@ -1,4 +1,5 @@
 import Driver.Sim
+import Driver.Lib
 /-! Line-protocol driver: one JSON request per input line, one JSON reply per output line. -/
 open Lean
 namespace Pyrtl.Drv
@@ -8,6 +9,7 @@ def dispatch (j : Json) : Except String Json := do
   match cmd with
   | "ping" => pure (Json.mkObj [("ok", .bool true)])
   | "sim" => cmdSim j
+  | "basic" => cmdBasic j
   | _ => throw s!"unknown cmd {cmd}"
 
 partial def loop (hin hout : IO.FS.Stream) : IO Unit := do
